@@ -19,15 +19,18 @@ def histories(ctx):
     # a nested history below a hidden folder and in a folder with an unusual name
     t2 = {"a.txt": b"content of a", ".backup": DIR, ".backup/card": DIR, ".backup/card/c.txt": b"content of c", "d": DIR,
           "d/b.txt": b"content of b", "d/e": DIR, "d/e/c.txt": b"c", "sp ace #1": DIR, "sp ace #1/s.txt": b"s",
-          "Card [A001]": DIR, "Card [A001]/k.txt": b"k"}   # (a name that reads as a pattern to glob / regular expressions)
+          "Card [A001]": DIR, "Card [A001]/k.txt": b"k",
+          "d-proxy": DIR, "d-proxy/p.txt": b"p"}   # (a name that reads as a pattern to glob / regular expressions)
     # a long history (more than 8, more than 9 chain entries), alternating formats
     H["flat-11gen"] = ops.build(ctx, T, [c("", [["xxh64"], ["md5"], ["sha1"]][i % 3]) for i in range(11)], expect=[0] * 11)
     from mc import foreign
     fz = foreign.rewrite(H["flat-2gen"], "no-sequencenr") if H.get("flat-2gen") is not None else None
     if fz is not None and foreign.valid(fz):
         H["flat-2gen-chain-without-sequence-numbers"] = fz   # (the attribute is optional in the directory schema)
-    H["nested-hidden"] = ops.build(ctx, t2, [c(".backup/card", ["md5"]), c("sp ace #1", ["md5"]), c("Card [A001]", ["md5"]), c("", ["xxh64"])],
-                                    expect=[0, 0, 0, 0])
+    H["nested-hidden"] = ops.build(ctx, t2, [c(".backup/card", ["md5"]), c("sp ace #1", ["md5"]), c("Card [A001]", ["md5"]),
+                                         # sibling histories whose folder names share a leading part (d, d-proxy)
+                                         c("d", ["md5"]), c("d-proxy", ["md5"]), c("", ["xxh64"])],
+                                    expect=[0, 0, 0, 0, 0, 0])
     return H
 
 
